@@ -255,7 +255,7 @@ def run_case(case, ctx):
     # admissibility of estimates is C12's clause (data from the family); for arbitrary data only finiteness is required here
     ctx.check("c11.free-finite", fin, f"{fam}: non-fixed estimates not finite after fit", after=after, **info)
     moved = [k for k in free if after[k] != start[k]]
-    ctx.check("c11.free-estimated", len(moved) == len(free) or _start_is_optimal(fam, free, start, data), f"{fam}: non-fixed parameter kept its start value although data were fitted", unchanged=[k for k in free if k not in moved], after=after, **info)
+    ctx.check("c11.free-estimated", len(moved) == len(free) or (method == "mle" and _start_is_optimal(fam, free, start, data, after)), f"{fam}: non-fixed parameter kept its start value although data were fitted", unchanged=[k for k in free if k not in moved], after=after, **info)
     # f_ attribute still the declared one
     okattr = all(getattr(d, f"f_{k}") == v for k, v in fixed.items())
     ctx.check("c11.f-attribute-kept", okattr, f"{fam}: f_<name> attribute altered by fit", **info)
@@ -272,6 +272,25 @@ def run_case(case, ctx):
             ctx.check("c11.fit-did-not-raise", False, f"{fam}: second fit with fixed {sorted(fixed)} raised {type(e).__name__}", message=str(e)[:200], **info)
 
 
-def _start_is_optimal(fam, free, start, data):
-    # a location estimate may legitimately coincide with its start (e.g. weibull gamma stuck at 0 is judged by C12, not here)
-    return False
+def _start_is_optimal(fam, free, start, data, after=None):
+    """A free parameter that still has its start value counts as estimated if that value is optimal within the
+    optimiser's resolution: moving it by +-2 % and +-10 % (the other parameters at their fitted values) does not raise
+    the log-likelihood of the data by more than 0.5 (seen: a generalised-gamma shape whose maximum-likelihood value was
+    0.9992 against a start of 1.0)."""
+    if after is None:
+        return False
+    from .c12 import loglik
+
+    base = loglik(fam, data, after)
+    if not np.isfinite(base):
+        return False
+    for k in free:
+        if after[k] != start[k]:
+            continue
+        for f in (0.9, 0.98, 1.02, 1.1):
+            q = dict(after)
+            q[k] = after[k] * f if after[k] != 0 else (f - 1.0)
+            v = loglik(fam, data, q)
+            if np.isfinite(v) and v > base + 0.5:
+                return False
+    return True
